@@ -110,6 +110,14 @@ public:
     // Calculate TTL from DNS result
     std::uint32_t ttl = calculateResultTtl(result);
 
+    // A TTL of zero means "do not cache" (RFC 1035). ExpiringCache::set treats a
+    // zero TTL as "use the default TTL", which would serve the answer for minutes.
+    if (ttl == 0)
+    {
+      cache_->remove(key);
+      return;
+    }
+
     // Store positive result
     CachedDnsResult cachedResult(result);
     cache_->set(key, cachedResult, std::chrono::seconds(ttl));
@@ -150,6 +158,13 @@ public:
     auto existingEntry = cache_->get(key);
     bool hadEntry = existingEntry.has_value();
     bool hadNegativeEntry = hadEntry && existingEntry->isNegative;
+
+    // A TTL of zero means "do not cache" (see put()).
+    if (negativeTtl == 0)
+    {
+      cache_->remove(key);
+      return;
+    }
 
     // Store negative result
     CachedDnsResult cachedResult(result, errorMessage);
